@@ -235,6 +235,8 @@ def check_case(case, sess: Session):
         before = copy.deepcopy(state.get("graph", {"nodes": {}, "edges": {}}))
         sess.evaluations += 1
         sess.count("gel_operations")
+        if i == 3:
+            sess.sample({"graph_cfg": case["cfg"], "ops": case["ops"][:4], "ids_contain_separator": sep})
         try:
             if kind == "observe":
                 items = mk_items(op[1])
